@@ -246,7 +246,7 @@ pub fn count_definite_preemptions(p: &Program, hist: &[HEv]) -> Option<usize> {
         match ev.kind {
             HK::Inv => {
                 let op = &p.threads[t][ev.pc as usize];
-                let voluntary = matches!(op, Op::Yield | Op::Await { .. } | Op::CvWait { .. } | Op::NWait { .. } | Op::Park | Op::Join { .. });
+                let voluntary = matches!(op, Op::Yield | Op::Await { .. } | Op::AwaitY { .. } | Op::CvWait { .. } | Op::NWait { .. } | Op::Park | Op::Join { .. });
                 let en = !voluntary && m.enabled_strict(t);
                 open[t] = Some((ev.pc as usize, en));
                 foreign[t] = false;
